@@ -553,6 +553,20 @@ func TestVerifC18(t *testing.T) {
 		}
 		c18IDs, c18Ghosts = ids, ghosts
 	}
+	// ids that contain each other as substrings / prefixes / suffixes (graphs on <= 3 jobs): ids
+	// are compared as wholes
+	{
+		ids, ghosts := c18IDs, c18Ghosts
+		c18IDs, c18Ghosts = []string{"test-linux", "test", "linux", "t", "st-li"}, []string{"tes", "test-linux-2"}
+		for n := 1; n <= 3; n++ {
+			c18Enumerate(n, true, true, func(idx int64, c *c18Case) bool {
+				c.Desc = "substring-ids " + c.Desc
+				c.IDs = c18IDs
+				return check(idx+40<<40, c)
+			})
+		}
+		c18IDs, c18Ghosts = ids, ghosts
+	}
 	// every letter of the alphabet in ids that are defined in one letter case and referenced in
 	// another (graphs on <= 2 jobs): case folding is per letter
 	{
